@@ -173,6 +173,30 @@ def run(check, repo: Repo) -> None:
     check.decide(recurses, "C19-R6", "update: recurses into nested mappings (siblings are merged, not replaced)", "",
                  mod.line(upd), fail_detail="update does not recurse: a nested update drops sibling keys")
     check.floor("update: nested-table stores", n_nested, 1)
+    # merge(*dicts) — the "current defaults" view update_defaults compares against — must merge nested sections with the module's update(); the
+    # dict METHOD of the same name replaces a nested section wholesale, so the view loses the sibling keys of every section a later layer touches
+    _, mg = repo.func(f"{CFGMOD}:merge")
+    check.analysed(f"{CFGMOD}:merge")
+    nested_calls = [c for c in calls_in(mg) if isinstance(c.func, ast.Name) and c.func.id == "update"]
+    shallow = [c for c in calls_in(mg) if isinstance(c.func, ast.Attribute) and c.func.attr == "update" and not (isinstance(c.func.value, ast.Name) and c.func.value.id in ("config", "quantem"))]
+    check.decide(bool(nested_calls) and not shallow, "C19-R6", "merge: layers are combined with the nested update() (sections are merged key by key)", "", mod.line(mg), definite=bool(shallow),
+                 fail_detail=(f"`{unparse(shallow[0])[:50]}` is dict.update: a nested section of a later layer REPLACES the earlier one — the merged defaults lose sibling keys, and "
+                              f"update_defaults no longer recognises their live values as 'still at the default'") if shallow else "merge does not call update()")
+    # 'new-defaults': a live value is replaced only if the key HAS a current default and still equals it.  defaults.get(k) == old[k] also holds for
+    # a key without default whose live value is None — an explicit user None would be overwritten by the next layer
+    nd_tests = [n for n in ast.walk(upd) if isinstance(n, ast.BoolOp) and isinstance(n.op, ast.And) and any("'new-defaults'" in unparse(v) for v in n.values)]
+    if len(nd_tests) != 1:
+        raise AnalysisError(f"update: expected one `priority == 'new-defaults' and …` conjunction, found {len(nd_tests)}")
+    conj = nd_tests[0].values
+    cmp_ = [v for v in conj if isinstance(v, ast.Compare) and len(v.ops) == 1 and isinstance(v.ops[0], ast.Eq) and "new-defaults" not in unparse(v)]
+    member = any(isinstance(v, ast.Compare) and len(v.ops) == 1 and isinstance(v.ops[0], ast.In) and "defaults" in unparse(v.comparators[0]) for v in conj)
+    via_get = [x for v in cmp_ for x in ast.walk(v) if isinstance(x, ast.Call) and isinstance(x.func, ast.Attribute) and x.func.attr == "get" and "defaults" in unparse(x.func.value) and len(x.args) < 2]
+    if not cmp_:
+        raise AnalysisError("update: the comparison of the live value with the current default was not found in the 'new-defaults' conjunction")
+    check.decide(member and not via_get, "C19-R6", "update['new-defaults']: the live value is compared with the default only for keys that have one (`k in defaults`)", unparse(nd_tests[0])[:90],
+                 mod.line(nd_tests[0]), definite=bool(via_get) and not member,
+                 fail_detail=f"`{unparse(cmp_[0])[:60]}` without a membership test: for a key with no current default, .get() yields None and a value the user set to None counts as "
+                             f"'still at the default' — the next update_defaults overwrites it (last-writer-wins is broken)")
 
     # ---- R3 canonical name ------------------------------------------------------------------
     n_can = 0
@@ -355,3 +379,4 @@ MANIFEST = {
     "technique": "CFG dominance (validate-before-store, must-pass-through) + protocol and role agreement on the AST",
 }
 MANIFEST["text"] += ' Also: the rollback path recorded by set._assign is built from the canonical key the value is stored under.'
+MANIFEST["text"] += " R6 also: merge() combines layers with the nested update(), not dict.update; the 'new-defaults' arm compares a live value with the default only under `k in defaults` (defaults.get(k) equals an explicit None)."
